@@ -63,7 +63,14 @@ pub fn one_call(pat: Pat, psk_mask: u16, initiator: bool, k: usize, psk_missing:
             let r = hs.write_message(&payload, &mut buf[..cap]);
             match HsOps::<P>::precheck_write(&rm) {
                 // after the last message both "already finished" and "not your turn" describe the call
-                Some(e) => assert!(r == Err(err_of(e)) || (finished && r == Err(Error::State(StateProblem::HandshakeAlreadyFinished))), "C11: wrong result for an out-of-phase / keyless write"),
+                // a missing PSK that is only needed late in the message: snow refuses at the first token that cannot be
+                // processed, so an empty buffer is reported first (both refusals describe the call, C11 fixes no order)
+                Some(e) => assert!(
+                    r == Err(err_of(e))
+                        || (finished && r == Err(Error::State(StateProblem::HandshakeAlreadyFinished)))
+                        || (psk_missing && choice == 1 && matches!(e, RmErr::MissingPsk) && r == Err(Error::Input)),
+                    "C11: wrong result for an out-of-phase / keyless write"
+                ),
                 None => {
                     if choice == 0 {
                         assert!(r == Ok(fixed + 2), "C11: a legitimate write was refused");
@@ -77,7 +84,13 @@ pub fn one_call(pat: Pat, psk_mask: u16, initiator: bool, k: usize, psk_missing:
         2 | 3 => {
             let r = hs.read_message(&buf[..fixed + 2], &mut out);
             match HsOps::<P>::precheck_read(&rm, fixed + 2).or(if HsOps::<P>::precheck_read(&rm, 0).is_none() { HsOps::<P>::precheck_psk(&rm) } else { None }) {
-                Some(e) => assert!(r == Err(err_of(e)) || (finished && r == Err(Error::State(StateProblem::HandshakeAlreadyFinished))), "C11: wrong result for an out-of-phase / keyless read"),
+                // likewise: a field the cipher rejects before the psk token is reached is reported first
+                Some(e) => assert!(
+                    r == Err(err_of(e))
+                        || (finished && r == Err(Error::State(StateProblem::HandshakeAlreadyFinished)))
+                        || (psk_missing && !verdict && matches!(e, RmErr::MissingPsk) && r == Err(Error::Decrypt)),
+                    "C11: wrong result for an out-of-phase / keyless read"
+                ),
                 None => {
                     // a rejecting cipher only matters if this message has an encrypted field
                     let any_enc = enc || unsafe { O_DEC_CALLS[0] } > 0;
